@@ -342,7 +342,7 @@ func checkStorageMessages(c *core.Ctx, rule string) {
 		}
 		isErr := p.Results[1] != "nil"
 		cs := p.CondString()
-		if p.Has(to+" < "+from) {
+		if p.Has(to + " < " + from) {
 			if isErr && p.Results[0] == "nil" {
 				okInv = true
 			} else {
